@@ -1376,6 +1376,13 @@ namespace bloch::compiler {
             return inferTypeInfo(par->expression.get());
         if (auto cast = dynamic_cast<CastExpression*>(expr))
             return typeFromAst(cast->targetType.get());
+        // An assignment used as a value yields the assigned value, so it has that value's type.
+        if (auto assign = dynamic_cast<AssignmentExpression*>(expr))
+            return inferTypeInfo(assign->value.get());
+        if (auto memAssign = dynamic_cast<MemberAssignmentExpression*>(expr))
+            return inferTypeInfo(memAssign->value.get());
+        if (auto arrAssign = dynamic_cast<ArrayAssignmentExpression*>(expr))
+            return inferTypeInfo(arrAssign->value.get());
         if (dynamic_cast<MeasureExpression*>(expr))
             return combine(ValueType::Bit, "");
         if (dynamic_cast<SuperExpression*>(expr)) {
